@@ -49,7 +49,7 @@ def run(chk, replay=None):
     gate, hb = core.std_setup(chk)
     rng = random.Random(chk.seed)
     quick = chk.tier == "quick"
-    nval = 700 if quick else 12000
+    nval = 700 if quick else 60000
     have_model = gate is not None and core.os.path.exists(core.RUNNER)
     failing, mism, dist = [], [], {}
     def bump(k, n=1): dist[k] = dist.get(k, 0) + n
